@@ -183,8 +183,13 @@ pub struct Mismatch {
     pub imp: String,
     pub model: String,
     pub spec: String,
-    pub kind: &'static str, // "impl!=spec" | "impl!=model" | "model!=spec" | "abort"
+    pub kind: &'static str, // "impl!=spec" | "impl!=model" | "model!=spec" | "abort" | "timeout"
     pub known: Option<String>,
+    /// requests the same child answered immediately before this one (order passes only): the
+    /// answer differs from the one given in stream order, i.e. it depends on the calls before it
+    pub history: Vec<String>,
+    /// position in the stream (stream-order mismatches; `usize::MAX` otherwise)
+    pub idx: usize,
 }
 
 fn json_str(s: &str) -> String {
@@ -290,6 +295,67 @@ fn shrink(prop: &str, model: &str, line: &str, kind: &str) -> String {
     cur
 }
 
+/// the shortest history found (suffix of the child's earlier requests, then halves and single
+/// requests dropped) after which `line` is answered `want`; every candidate is re-run in a fresh
+/// child. Falls back to the whole prefix (last 2000 requests) when nothing shorter reproduces.
+fn minimise_history(prefix: &[String], line: &str, want: &str) -> Vec<String> {
+    let repro = |h: &[String]| -> bool {
+        let mut seq = h.to_vec();
+        seq.push(line.to_string());
+        run_impl(&seq, 1).last().map(|a| a == want).unwrap_or(false)
+    };
+    let mut take = 1usize;
+    let mut h: Option<Vec<String>> = None;
+    loop {
+        let t = take.min(prefix.len());
+        let cand = &prefix[prefix.len() - t..];
+        if repro(cand) {
+            h = Some(cand.to_vec());
+            break;
+        }
+        if t == prefix.len() {
+            break;
+        }
+        take *= 2;
+    }
+    let mut h = match h {
+        Some(h) => h,
+        None => return prefix[prefix.len().saturating_sub(2000)..].to_vec(),
+    };
+    // requests of the same function only
+    let f_of = |l: &str| -> String { let r = Req::parse(l); format!("{} {}", r.f, r.s("f")) };
+    let same: Vec<String> = h.iter().filter(|l| f_of(l) == f_of(line)).cloned().collect();
+    if same.len() < h.len() && repro(&same) {
+        h = same;
+    }
+    // halves, then single requests
+    let mut rounds = 0;
+    while h.len() > 1 && rounds < 40 {
+        rounds += 1;
+        let mid = h.len() / 2;
+        if repro(&h[mid..]) {
+            h = h[mid..].to_vec();
+        } else if repro(&h[..mid]) {
+            h = h[..mid].to_vec();
+        } else {
+            break;
+        }
+    }
+    if h.len() <= 48 {
+        let mut i = 0;
+        while i < h.len() && h.len() > 1 {
+            let mut c = h.clone();
+            c.remove(i);
+            if repro(&c) {
+                h = c;
+            } else {
+                i += 1;
+            }
+        }
+    }
+    h
+}
+
 pub fn check(prop: &str, tier: &str, seed: u64, model: &str, outdir: &str, corpus: Option<&str>) -> i32 {
     let t0 = Instant::now();
     let jobs: usize = std::thread::available_parallelism().map(|n| n.get()).unwrap_or(8);
@@ -373,6 +439,8 @@ pub fn check(prop: &str, tier: &str, seed: u64, model: &str, outdir: &str, corpu
                     spec: mods[i].1.clone(),
                     kind,
                     known,
+                    history: vec![],
+                    idx: i,
                 });
             } else if known.is_none() && mism.len() < 200 {
                 // still record unshrunk (keeps counts honest without spending time)
@@ -384,8 +452,84 @@ pub fn check(prop: &str, tier: &str, seed: u64, model: &str, outdir: &str, corpu
                     spec: mods[i].1.clone(),
                     kind,
                     known,
+                    history: vec![],
+                    idx: i,
                 });
             }
+        }
+    }
+    // a stream-order answer that a fresh process does not give depends on the requests before it:
+    // find the (minimised, confirmed) history among the earlier requests of its child
+    {
+        let chunk = lines.len().div_ceil(jobs.max(1).min(lines.len().max(1)));
+        let mut done = 0;
+        for m in mism.iter_mut() {
+            if m.known.is_some() || m.idx == usize::MAX || m.kind == "timeout" || done >= 6 {
+                continue;
+            }
+            done += 1;
+            let fresh = run_impl(&[m.line.clone()], 1);
+            if fresh[0] != m.imp {
+                let lo = m.idx - (m.idx % chunk);
+                m.history = minimise_history(&lines[lo..m.idx], &m.line, &m.imp);
+                m.shrunk = m.line.clone(); // shrinking the request would lose the history
+            }
+        }
+    }
+    // order passes: the same requests in three other orders (same arguments adjacent with different
+    // parameters; same function and parameters adjacent with different arguments; stream order
+    // reversed). The functions under test are pure: an answer that differs from the one given in
+    // stream order depends on the calls before it, and is judged like any other answer — with the
+    // preceding requests of that child (minimised, re-run to confirm) as its history.
+    let mut order_diffs = 0usize;
+    let mut order_evals = 0usize;
+    if std::env::var("TVH_ORDER_PASSES").map(|v| v != "0").unwrap_or(true) && lines.len() > 1 {
+        let rev_key = |l: &str| -> String { l.split(' ').rev().collect::<Vec<_>>().join(" ") };
+        let mut ord_a: Vec<usize> = (0..lines.len()).collect();
+        ord_a.sort_by_cached_key(|&i| (rev_key(&lines[i]), i));
+        let mut ord_b: Vec<usize> = (0..lines.len()).collect();
+        ord_b.sort_by(|&i, &j| lines[i].cmp(&lines[j]).then(i.cmp(&j)));
+        let ord_c: Vec<usize> = (0..lines.len()).rev().collect();
+        let mut pending: Vec<(usize, Vec<String>)> = vec![]; // (index into mism, that child's earlier requests)
+        for ord in [ord_a, ord_b, ord_c] {
+            let permuted: Vec<String> = ord.iter().map(|&i| lines[i].clone()).collect();
+            let alt = run_impl(&permuted, jobs);
+            order_evals += permuted.len();
+            let chunk = permuted.len().div_ceil(jobs.max(1).min(permuted.len()));
+            for (k, &i) in ord.iter().enumerate() {
+                if alt[k] == imps[i] || alt[k] == SKIP || imps[i] == SKIP {
+                    continue;
+                }
+                order_diffs += 1;
+                let v = judge(prop, &lines[i], &alt[k], &mods[i].0, &mods[i].1);
+                if let Some(kind) = kind_of(&v, &alt[k]) {
+                    if kind == "model!=spec" {
+                        continue;
+                    }
+                    let r = Req::parse(&lines[i]);
+                    let known = props::known_finding(prop, &r, &alt[k], &mods[i].1);
+                    *per_kind.entry(format!("{} (order pass)", kind)).or_default() += 1;
+                    if pending.len() < 6 && mism.len() < 200 {
+                        let lo = k - (k % chunk);
+                        pending.push((mism.len(), permuted[lo..k].to_vec()));
+                        mism.push(Mismatch {
+                            line: lines[i].clone(),
+                            shrunk: lines[i].clone(),
+                            imp: alt[k].clone(),
+                            model: mods[i].0.clone(),
+                            spec: mods[i].1.clone(),
+                            kind,
+                            known,
+                            history: vec![],
+                            idx: usize::MAX,
+                        });
+                    }
+                }
+            }
+        }
+        for (mi, prefix) in pending {
+            let m = &mut mism[mi];
+            m.history = minimise_history(&prefix, &m.line, &m.imp);
         }
     }
     // shrink (unknown ones first)
@@ -409,8 +553,8 @@ pub fn check(prop: &str, tier: &str, seed: u64, model: &str, outdir: &str, corpu
     // result.json
     let mut j = String::from("{\n");
     j += &format!(" \"property\": {},\n \"tier\": {},\n \"seed\": {},\n", json_str(prop), json_str(tier), seed);
-    j += &format!(" \"evaluations\": {},\n \"corpus_cases\": {},\n \"distinct_nontrivial\": {},\n \"exhaustive\": {},\n \"impl_panics\": {},\n \"skipped_after_timeouts\": {},\n",
-        lines.len(), n_corpus, distinct_nontrivial, exhaustive, panics, skipped);
+    j += &format!(" \"evaluations\": {},\n \"corpus_cases\": {},\n \"distinct_nontrivial\": {},\n \"exhaustive\": {},\n \"impl_panics\": {},\n \"skipped_after_timeouts\": {},\n \"order_pass_evaluations\": {},\n \"order_pass_answers_differing\": {},\n",
+        lines.len(), n_corpus, distinct_nontrivial, exhaustive, panics, skipped, order_evals, order_diffs);
     j += &format!(" \"rule\": {},\n", json_str(&props::rule(prop, tier)));
     j += &format!(" \"timing_s\": {{\"gen\": {:.2}, \"impl\": {:.2}, \"model\": {:.2}, \"total\": {:.2}}},\n",
         t_gen, t_impl - t_gen, t_model - t_impl, t0.elapsed().as_secs_f64());
@@ -425,8 +569,9 @@ pub fn check(prop: &str, tier: &str, seed: u64, model: &str, outdir: &str, corpu
     j += &format!(" \"samples\": [{}],\n", samples.iter().map(|s| json_str(s)).collect::<Vec<_>>().join(", "));
     j += " \"mismatches\": [\n";
     let items: Vec<String> = mism.iter().map(|m| {
-        format!("  {{\"kind\": {}, \"known\": {}, \"case\": {}, \"shrunk\": {}, \"impl\": {}, \"model\": {}, \"spec\": {}}}",
+        format!("  {{\"kind\": {}, \"history\": [{}], \"known\": {}, \"case\": {}, \"shrunk\": {}, \"impl\": {}, \"model\": {}, \"spec\": {}}}",
             json_str(m.kind),
+            m.history.iter().map(|h| json_str(h)).collect::<Vec<_>>().join(", "),
             m.known.as_ref().map(|k| json_str(k)).unwrap_or("null".into()),
             json_str(&m.line), json_str(&m.shrunk), json_str(&m.imp), json_str(&m.model), json_str(&m.spec))
     }).collect();
